@@ -33,3 +33,8 @@ package composer
 //@   ensures op>: c.version != nil && c.operator == ">" ==> result == (version.Compare(c.version) > 0)   [C02 C20]
 //@   ensures op>=: c.version != nil && c.operator == ">=" ==> result == (version.Compare(c.version) >= 0)   [C02 C20]
 //@   ensures other: c.operator != "=" && c.operator != "!=" && c.operator != "<" && c.operator != "<=" && c.operator != ">" && c.operator != ">=" && c.operator != "*" && c.operator != "@" && c.operator != "caret" && c.operator != "caret-0x" && c.operator != "caret-00x" ==> !result   [C02 C20]
+
+//@ spec wfRange(pr *VersionRange) bool = forall g int :: 0 <= g && g < len(pr.constraintGroups) ==> (forall i int :: 0 <= i && i < len(pr.constraintGroups[g]) ==> pr.constraintGroups[g][i] != nil)
+
+//@ func (*VersionRange).Contains
+//@   requires wfRange(pr)
